@@ -13,13 +13,13 @@ Monitors (DESIGN 5/C01):
 """
 from __future__ import annotations
 
-import signal
+import sys
 
 from ..mon import Watch, Reach
 from ..ref_sem import (Lang, AModel, eval_expr, eval_set, final_step,
                        has_cycle_through, neighbours)
-from ..result import Budget, digest
-from ..stream import gen_case, Built, shrink_case
+from ..result import Budget, digest, safe
+from ..stream import gen_case, Built, shrink_case, TooExpensive, cpu_budget
 from ..gen_lang import Cfg
 from ..gen_model import MCfg
 
@@ -50,16 +50,11 @@ META = {
 
 CASES = {'quick': 1600, 'thorough': 100000}
 SECONDS = {'quick': 60, 'thorough': 1500}
-CALL_BUDGET = 200000
-CPU_BUDGET_S = 30
+CPU_BUDGET_S = 6.0
 
 
-class BudgetExceeded(BaseException):
-    pass
-
-
-def _alarm(signum, frame):
-    raise BudgetExceeded('cpu')
+class Unbounded(BaseException):
+    """sound sign of non-termination (see CaseMonitor.repeat)"""
 
 
 class CaseMonitor:
@@ -70,6 +65,40 @@ class CaseMonitor:
         self.first = None        # first divergence (key, what)
         self.calls = 0
         self.nontrivial = False
+        self.depth = 0
+        self.frames = {}         # caller frame -> {call signature: count}
+        self.limit = 8
+
+    def repeat(self, sig):
+        """Sound sign of non-termination: one activation (frame) of repository
+        code issues the same evaluator / neighbours call more often than any
+        loop that makes progress could (a visited-set walk expands each asset
+        once, a naive fixpoint iteration at most n+1 times).  The frame object
+        itself is the key (kept alive until the outermost call returns, so its
+        address cannot be reused)."""
+        fr = sys._getframe(3)
+        if '/maltoolbox/' not in fr.f_code.co_filename:
+            return
+        # only activations that evaluate a transitive expression: elsewhere the
+        # evaluator legitimately repeats calls (its lists keep duplicates and
+        # a subType operand is re-evaluated once per target)
+        se = fr.f_locals.get('step_expression')
+        if not isinstance(se, dict) or se.get('type') != 'transitive':
+            return
+        tab = self.frames.setdefault(fr, {})
+        n = tab.get(sig, 0) + 1
+        tab[sig] = n
+        if n > self.limit:
+            raise Unbounded('the same call %r was issued %d times by one activation of %s' % (sig[:2], n, fr.f_code.co_name))
+
+    def enter(self):
+        self.depth += 1
+
+    def leave(self):
+        self.depth -= 1
+        if self.depth <= 0:
+            self.depth = 0
+            self.frames.clear()
 
     def diverge(self, key, what):
         if self.first is None:
@@ -81,17 +110,24 @@ class CaseMonitor:
         from maltoolbox.model import Model
         self.built = built
         self.rev = {id(o): aid for aid, o in built.objs.items()}
+        self.limit = len(built.am.assets) + 3
         mon = self
 
         def before(args, kwargs):
             mon.calls += 1
-            if mon.calls > CALL_BUDGET:
-                raise BudgetExceeded('calls')
             targets = args[2] if len(args) > 2 else kwargs['target_assets']
             expr = args[3] if len(args) > 3 else kwargs['step_expression']
-            return ([mon.rev.get(id(a)) for a in targets], expr)
+            ins = [mon.rev.get(id(a)) for a in targets]
+            mon.enter()
+            if ins:
+                mon.repeat(('E', id(expr), frozenset(i for i in ins if i is not None)))
+            return (ins, expr)
+
+        def on_raise(token, args, kwargs, exc):
+            mon.leave()
 
         def after(token, args, kwargs, result):
+            mon.leave()
             if token is None:
                 return
             ins, expr = token
@@ -119,12 +155,12 @@ class CaseMonitor:
                 mon.diverge('attackgraph.eval:%s:wrong-step-name' % expr['type'],
                             'step name %r, expected %r; expr=%s' % (step, want, _short(expr)))
 
-        self.w_eval = Watch(agmod, '_process_step_expression', before=before, after=after)
+        self.w_eval = Watch(agmod, '_process_step_expression', before=before, after=after, on_raise=on_raise)
 
         def nb_before(args, kwargs):
             mon.calls += 1
-            if mon.calls > CALL_BUDGET:
-                raise BudgetExceeded('calls')
+            asset = args[1] if len(args) > 1 else kwargs['asset']
+            fname = args[2] if len(args) > 2 else kwargs['field_name']
             return None
 
         def nb_after(token, args, kwargs, result):
@@ -225,7 +261,7 @@ def classify_operands(lang, am, x, e, res):
                 res.count('class:setop-multi-source')
 
 
-def check_case(case, res, direct_cap=250, count=True):
+def _check_case(case, res, direct_cap=250, count=True):
     """run every C01 monitor on one case; returns (key, what) of the first
     divergence or None; may register an inconclusive reason"""
     import maltoolbox.attackgraph.attackgraph as agmod
@@ -239,85 +275,87 @@ def check_case(case, res, direct_cap=250, count=True):
     mon = CaseMonitor(case, res)
     mon.install(built)
     graph = None
-    exhausted = None
-    old = signal.signal(signal.SIGVTALRM, _alarm)
-    signal.setitimer(signal.ITIMER_VIRTUAL, CPU_BUDGET_S)
+    unbounded = None
+
+    def any_cycle():
+        for a in am.assets:
+            for s in lang.steps(a['type']).values():
+                exprs = list((s['reaches'] or {}).get('stepExpressions', []))
+                if s['requires']:
+                    exprs += s['requires']['stepExpressions']
+                for e in exprs:
+                    if has_cycle_through(lang, am, a['id'], e):
+                        return True
+        return False
+
     try:
         try:
-            graph = built.attack_graph()
+            graph = built.attack_graph(cpu_s=CPU_BUDGET_S)
         except RecursionError:
-            exhausted = 'recursion limit'
-        except BudgetExceeded as exc:
-            exhausted = 'budget:%s' % exc
+            # legitimate recursion depth is bounded by expression depth + number of assets
+            unbounded = 'the recursion limit (%d frames) was reached' % sys.getrecursionlimit()
+        except Unbounded as exc:
+            unbounded = str(exc)
+        except TooExpensive:
+            # ambiguous (the evaluator keeps duplicates, so some cases are just very slow): never a verdict
+            if count:
+                res.count('skipped:too-expensive')
+            return None
         except Exception as exc:
             mon.diverge('attackgraph.generate:raised-%s' % type(exc).__name__,
                         'generation raised %r on a valid language/model' % (exc,))
-        finally:
-            signal.setitimer(signal.ITIMER_VIRTUAL, 0)
-
-        if exhausted:
-            cyc = False
-            for a in am.assets:
-                for s in lang.steps(a['type']).values():
-                    exprs = list((s['reaches'] or {}).get('stepExpressions', []))
-                    if s['requires']:
-                        exprs += s['requires']['stepExpressions']
-                    for e in exprs:
-                        if has_cycle_through(lang, am, a['id'], e):
-                            cyc = True
-            if cyc:
-                mon.first = mon.first or ('attackgraph.eval:transitive-nontermination-on-cycle',
-                                          'generation did not terminate (%s) on a finite model whose transitive operand has a cycle' % exhausted)
-            else:
-                res.inconc('generation exhausted %s without a reference cycle' % exhausted)
-                mon.uninstall()
-                return None
+        if unbounded:
+            key = ('attackgraph.eval:transitive-nontermination-on-cycle' if any_cycle()
+                   else 'attackgraph.eval:unbounded-evaluation')
+            mon.first = mon.first or (key, 'generation does not terminate on a finite model: %s' % unbounded)
 
         if graph is not None:
             _end_to_end(built, graph, mon, res, count)
             # direct calls with the reference's singleton inputs
-            signal.setitimer(signal.ITIMER_VIRTUAL, CPU_BUDGET_S)
+            seen = set()
+
+            def visit(x, e):
+                if count:
+                    classify_operands(lang, am, x, e, res)
+                if e['type'] == 'attackStep':
+                    return
+                try:
+                    agmod._process_step_expression(built.lang_graph, built.model, [built.objs[x]], e)
+                    res.count('direct-calls')
+                except (RecursionError, Unbounded) as exc:
+                    mon.depth = 0
+                    mon.frames.clear()
+                    mon.diverge('attackgraph.eval:transitive-nontermination-on-cycle' if has_cycle_through(lang, am, x, e)
+                                else 'attackgraph.eval:unbounded-evaluation',
+                                'direct evaluation from asset %s does not terminate (%r): %s' % (x, exc, _short(e)))
+                except Exception as exc:
+                    mon.depth = 0
+                    mon.frames.clear()
+                    mon.diverge('attackgraph.eval:%s:raised-%s' % (e['type'], type(exc).__name__),
+                                'evaluator raised %r from asset %s on %s' % (exc, x, _short(e)))
+
             try:
-                seen = set()
-
-                def visit(x, e):
-                    if count:
-                        classify_operands(lang, am, x, e, res)
-                    if e['type'] == 'attackStep':
-                        return
-                    try:
-                        agmod._process_step_expression(built.lang_graph, built.model, [built.objs[x]], e)
-                        res.count('direct-calls')
-                    except (RecursionError, BudgetExceeded) as exc:
-                        if has_cycle_through(lang, am, x, e):
-                            mon.diverge('attackgraph.eval:transitive-nontermination-on-cycle',
-                                        'direct evaluation from asset %s did not terminate: %s' % (x, _short(e)))
-                        else:
-                            res.inconc('direct call exhausted budget without reference cycle')
-                    except Exception as exc:
-                        mon.diverge('attackgraph.eval:%s:raised-%s' % (e['type'], type(exc).__name__),
-                                    'evaluator raised %r from asset %s on %s' % (exc, x, _short(e)))
-
-                for a in am.assets:
-                    for s in lang.steps(a['type']).values():
-                        exprs = list((s['reaches'] or {}).get('stepExpressions', []))
-                        if s['requires']:
-                            exprs += s['requires']['stepExpressions']
-                        for e in exprs:
-                            _subexpr_walk(lang, am, a['id'], e, visit, seen, direct_cap)
-            except BudgetExceeded:
-                res.inconc('direct-call phase exceeded the CPU budget')
-            finally:
-                signal.setitimer(signal.ITIMER_VIRTUAL, 0)
+                with cpu_budget(CPU_BUDGET_S):
+                    for a in am.assets:
+                        for s in lang.steps(a['type']).values():
+                            exprs = list((s['reaches'] or {}).get('stepExpressions', []))
+                            if s['requires']:
+                                exprs += s['requires']['stepExpressions']
+                            for e in exprs:
+                                _subexpr_walk(lang, am, a['id'], e, visit, seen, direct_cap)
+            except TooExpensive:
+                if count:
+                    res.count('skipped:direct-calls-too-expensive')
     finally:
-        signal.setitimer(signal.ITIMER_VIRTUAL, 0)
-        signal.signal(signal.SIGVTALRM, old)
         mon.uninstall()
     if mon.nontrivial:
         res.notes['_nt'] = True
     else:
         res.notes['_nt'] = False
     return mon.first
+
+
+check_case = safe(_check_case)
 
 
 def _end_to_end(built, graph, mon, res, count):
